@@ -4,7 +4,7 @@ CONSTANTS
   Heads <- HeadsRich
   Levels = {}
   Calls = {}
-  TextBytes = {0, 1, 2, 3, 4, 97}
+  TextBytes = {0, 1, 2, 3, 97}
   MaxText = 3
   Ops = {}
   LogMax = 256
